@@ -22,8 +22,9 @@ Abstractions (the same as `Model/FlowTypes.lean` where they overlap):
 * everything external is an input: the answers of the CA contacted (`exs`), the exits of the
   account-file hook groups (`hks`), the freshly generated key (`load`).
 
-GHOST state, never read by any function of this file (theorem `ghost_not_read`): `EpRec.ca`, what
-the CA of that endpoint holds for the account the record points to.
+GHOST state: `EpRec.ca`, what the CA of that endpoint holds for the account the record points to.
+It is written by the three `ghost…` functions and never read (`getEndpointM` hands the record out
+without it; theorem `ghost_not_read` in `Props/C11Indep.lean`).
 -/
 import AcmedVerif.Model.FlowTypes
 
@@ -187,6 +188,10 @@ def Account.load (a : Account) (contacts : Nat) (keyChanged : Bool) (fresh : Key
   let a1 := a.updateKeys keyChanged fresh
   { a1 with shared := { a1.shared with contacts := contacts, eab := eab } }
 
+/-- `account.rs:182-194`, branch `None` (no account file): no endpoint, a fresh key, no past key. -/
+def Account.create (contacts : Nat) (fresh : KeyId) (eab : Option Nat) : Account :=
+  ⟨[], ⟨contacts, fresh, [], eab⟩⟩
+
 /-! ### Requests, answers, the state monad -/
 
 /-- Where a request is POSTed: an entry of the directory of an endpoint (`endpoint.dir.new_account`,
@@ -255,10 +260,13 @@ def failAt (st : Step) : MM α := fun s => (.fail st, s)
 /-- Read the fields other than `endpoints`. -/
 def getShared : MM Shared := fun s => (.val s.acct.shared, s)
 
+/-- The record as the code sees it: without the ghost. -/
+def EpRec.stored (r : EpRec) : EpRec := { r with ca := ⟨0, none⟩ }
+
 /-- `account.get_endpoint(e)?`. -/
 def getEndpointM (e : EpName) : MM EpRec := fun s =>
   match s.acct.getEndpoint e with
-  | some r => (.val r, s)
+  | some r => (.val r.stored, s)
   | none => (.unknownEndpoint, s)
 
 /-- A group of assignments to the account, each with `?`. -/
@@ -362,10 +370,48 @@ def synchronize (v : Variant) (e : EpName) : MM Unit := do
       (if keyChanged then updateAccountKey e else pure ())
   else registerAccount e
 
+/-! ### The view from one endpoint (`Flow.Acc`, `Model/FlowTypes.lean:95-116`) -/
+
+/-- The flags `Model/Flow.lean` works with, computed from the shared fields and the record of the
+endpoint.  `recKey` of a record without fingerprint is some key other than the current one (the
+comparison `hash_key(current) != key_hash` is then true, and `get_past_key` finds nothing). -/
+def viewAcc (sh : Shared) (r : EpRec) : Flow.Acc :=
+  { hasUrl := r.accountUrl != 0
+    contactsInSync := r.contactsHash == some sh.contacts
+    bindingInSync := !bindingChanged sh r
+    pastKeyKnown := (sh.getPastKey r.keyHash).isSome
+    curKey := sh.currentKey
+    recKey := match r.keyHash with
+      | some k => k
+      | none => sh.currentKey + 1
+    caKey := r.ca.key
+    caContactsOk := r.ca.contacts == some sh.contacts }
+
+def Ans.abs : Ans → Flow.ExRes
+  | .account a => .ok (.account a.orders.isSome a.location.isSome a.existing)
+  | .okOther => .ok .undecodable
+  | .acmeErr ty => .acmeErr ty
+  | .otherErr => .otherErr
+
+def MEv.abs : MEv → Flow.Ev
+  | .req _ kind _ signer _ ans => .exch kind (match kind with
+      | .directory => .none
+      | .newAccount => .jwk
+      | _ => .kid) signer ans.abs
+  | .hooks ty ok => .hooks ty ok
+  | .saveAccount => .saveAccount
+
 /-! ### Entry points for the driver -/
 
 inductive Tag | ok | failed (s : Step) | unknownEndpoint | stuck
   deriving DecidableEq, Repr, Inhabited
+
+/-- `unknownEndpoint` has no counterpart in `Model/Flow.lean` (one endpoint, always known). -/
+def Tag.abs : Tag → Flow.Result
+  | .ok => .ok
+  | .failed s => .failed s
+  | .unknownEndpoint => .stuck
+  | .stuck => .stuck
 
 def MOut.tag : MOut α → Tag
   | .val _ => .ok
